@@ -79,6 +79,8 @@ def index_of(t):
     k = t.kind
     if k == "mirror":
         p = t.args[0].kind
+        if p == "usize":
+            return ("nat",)
         return ("unit",) if p == "unit" else ("prim", p)
     if k in ("owned", "slice", "huffman", "codec"):
         return ("pair",)
@@ -409,7 +411,10 @@ def boundary_nat(rng, bits):
     cands = [0, 1, 2, 3, 7, 255, 256, (1 << 31) - 1, 1 << 31, (1 << 32) - 1, 1 << 32, (1 << 32) + 1,
              (1 << 63) - 1, 1 << 63, (1 << 63) + 1, (1 << 64) - 1, 1 << 64, m, m - 1]
     cands = [c for c in cands if c <= m]
-    r = rng.below(10)
+    r = rng.below(12)
+    if r >= 10:
+        # multiples of a small stride: lets index containers holding these values strive and saturate
+        return (5 * rng.below(6)) & m
     if r < 5:
         return rng.below(min(m + 1, 5))
     if r < 9:
